@@ -1328,7 +1328,7 @@ func (zeroReader) Read(p []byte) (int, error) {
 
 func init() {
 	Register(&Prop{ID: "C27", Level: "exploration",
-		Rule: "one case = 5-30 portmap v2 / rpcbind v3,v4 calls (NULL, SET, UNSET, GETPORT/GETADDR, DUMP, unknown versions, unknown procedures, foreign program numbers, versions and protocol numbers that differ from registered ones only in their high bits) from 8 client addresses (IPv4/IPv6 loopback, IPv4-mapped, private and global addresses) over the simulated network against a Portmapper started through its listen seam, transport segmentation on alternate connections, sequential or (30%) under the random scheduler, or (20% of cases) concurrently: one loopback client issues 4-11 SET/UNSET calls while 1-3 other clients issue DUMP (v2, v3, v4) and GETPORT/GETADDR calls under the seeded scheduler - every DUMP reply must then be a set of mappings the registry held at some instant between the call and its reply (in 30% of the concurrent cases two loopback clients SET/UNSET at the same time instead, and the registry afterwards must be what some interleaving of the two streams leaves behind); oracle: every reply strictly decodes (RFC 1831 + RFC 1833 result types), GETPORT/GETADDR/DUMP equal a map model of (prog,vers,prot)->port, SET/UNSET from loopback update it, and the registry (read through GetMappings before and after every call) never changes for a non-loopback client in any protocol version; non-trivial = at least one call; distinct by event digest",
+		Rule: "one case = 5-30 portmap v2 / rpcbind v3,v4 calls (NULL, SET, UNSET, GETPORT/GETADDR, DUMP, unknown versions, unknown procedures, foreign program numbers, versions and protocol numbers that differ from registered ones only in their high bits) from 8 client addresses (IPv4/IPv6 loopback, IPv4-mapped, private and global addresses) over the simulated network against a Portmapper started through its listen seam, transport segmentation on alternate connections, sequential or (30%) under the random scheduler, or (20% of cases) concurrently: one loopback client issues 4-11 SET/UNSET calls while 1-3 other clients issue DUMP (v2, v3, v4) and GETPORT/GETADDR calls under the seeded scheduler - every DUMP reply must then be a set of mappings the registry held at some instant between the call and its reply (in 30% of the concurrent cases two loopback clients SET/UNSET at the same time instead, and the registry afterwards must be what some interleaving of the two streams leaves behind); oracle: every reply strictly decodes (RFC 1831 + RFC 1833 result types), GETPORT/GETADDR/DUMP equal a map model of (prog,vers,prot)->port, SET/UNSET from loopback update it, and the registry (read through GetMappings before and after every call) never changes for a non-loopback client in any protocol version; 6% of the sequential calls arrive in two parts 3 ms-8 s apart (cut at a drawn byte), always inside the 30 s the portmapper waits for a record; non-trivial = at least one call; distinct by event digest",
 		Gen:  genC27, New: func() any { return &PmScn{} }, Run: runPortmap, Shrink: shrinkPm,
 		Real:    []string{"Portmapper (StartOnPort, accept loop, connection handler, handleCall, all v2/v3/v4 procedures, Stop)", "record marking"},
 		Stubbed: []string{"kernel TCP (simnet)", "clock", "scheduler", "sync primitives"}})
